@@ -2,7 +2,7 @@
 from typing import Dict
 
 from .engine import Batch, Check
-from . import gen_a, gen_b, gen_f, oracles_a, oracles_rules
+from . import gen_a, gen_b, gen_f, oracles_a, oracles_c20, oracles_rules
 
 
 def _wd_c03(where):
@@ -13,6 +13,28 @@ def _wd_c03(where):
 
 
 ENGINE_ON = {"C01", "C02", "C03", "C04", "C08", "C19"}
+
+
+def _c20_exc(err, scn, res):
+    """an exception inside an agent counts only if every market is in an admissible state (prices > 0)."""
+    mon = res.get("_mon")
+    fr = err.get("pams_frame") or ["", ""]
+    if not fr[0].startswith("pams/agents/"):
+        return None
+    if err.get("type") == "AssertionError":
+        # the agent's own input assertions (e.g. a normal-margin price drawn below zero): it declares the
+        # situation inadmissible itself; listed as an anomaly, never as a violation
+        return ""
+    try:
+        for m in mon.markets:
+            if not all(p > 0 for p in m.get_market_prices()) or not all(p > 0 for p in m.get_fundamental_prices()):
+                return ""
+            for book in (m.get_buy_order_book(), m.get_sell_order_book()):
+                if any(q is not None and not (q > 0) for q in book):
+                    return ""
+    except Exception:
+        return None
+    return "C20"
 
 
 def registry() -> Dict[str, Check]:
@@ -174,5 +196,18 @@ def registry() -> Dict[str, Check]:
         need_probes=["scripted_covariance_checked", "scripted_covariance_with_correlation", "scripted_linearity_checked",
                      "zero_vol_step", "generation_chunk_boundary_crossed", "change_shock", "change_drift", "change_vol",
                      "change_corr", "change_uncorr"],
+    )
+    reg["C20"] = Check(
+        "C20", {"C20"},
+        [Batch("A-agents", gen_a.gen_agents, 400, 8000, driver="A", budget_s=30.0, profile="agents")],
+        plugins=lambda: [oracles_c20.AgentsPlugin()],
+        exc_is_violation=_c20_exc,
+        nontrivial=lambda s: s["stats"].get("agent_decisions", 0) >= 5 and s["stats"].get("fills", 0) > 0,
+        rule="Driver-A runs in which probe subclasses of all built-in agents trade next to scripted agents shaping the "
+             "state; non-trivial = at least 5 agent decisions were compared with the reference strategy and a fill happened.",
+        need_probes=["fcn_buy", "fcn_sell", "fcn_chart_term_nonzero", "fcn_fund_term_nonzero", "fcn_margin_extreme",
+                     "fcn_window_1", "mm_base_from_quotes", "mm_base_from_market_price", "arb_basket_buy_index",
+                     "arb_basket_sell_index", "arb_below_threshold", "arb_not_running", "msfcn_some_market_has_volume",
+                     "test_agent_decision"],
     )
     return reg
